@@ -140,3 +140,82 @@ def deps(tree, events, memo=None):
         else:
             pos += 2
     return out
+
+
+# ---------------------------------------------------------------------------------------
+# borrowing calls inside comprehensions: the lent place is loop-carried, leaf by leaf
+
+CP_HEADER = """import repo_shim  # noqa
+import guppylang
+from guppylang import guppy
+from guppylang.std.builtins import array, owned
+from guppylang.std.quantum import qubit
+
+guppylang.enable_experimental_features()
+
+
+@guppy.struct
+class Reg:
+    hits: int
+    log: array[int, 2]
+
+
+@guppy.struct
+class Outer:
+    k: int
+    r: Reg
+
+
+@guppy.declare
+def bump(r: Reg) -> int: ...
+
+
+@guppy.declare
+def bump2(r: Reg, k: int, t: Reg) -> int: ...
+
+
+@guppy.declare
+def bumpt(t: tuple[int, array[int, 2]]) -> int: ...
+
+
+@guppy.declare
+def bumpo(s: Outer) -> int: ...
+
+"""
+
+# leaves (paths) of the lendable types; all have copyable and non-copyable leaves
+CP_LEAVES = {"Reg": [[0], [1]], "tuple[int, array[int, 2]]": [[0], [1]], "Outer": [[0], [1, 0], [1, 1]]}
+# (params, call expression, [(param index, path of the lent place inside the param, its type, callee, port)])
+CP_CALLS = [
+    ("r: Reg", "bump(r)", [(0, [], "Reg", "bump", 1)]),
+    ("s: Outer", "bump(s.r)", [(0, [1], "Reg", "bump", 1)]),
+    ("s: Outer", "bumpo(s)", [(0, [], "Outer", "bumpo", 1)]),
+    ("t: tuple[int, array[int, 2]]", "bumpt(t)", [(0, [], "tuple[int, array[int, 2]]", "bumpt", 1)]),
+    ("r: Reg, t: Reg", "bump2(t, 1, r)", [(1, [], "Reg", "bump2", 1), (0, [], "Reg", "bump2", 2)]),
+    ("r: Reg, s: Outer", "bump2(s.r, s.k, r)", [(1, [1], "Reg", "bump2", 1), (0, [], "Reg", "bump2", 2)]),
+]
+# comprehension contexts; {c} is the borrowing call
+CP_CONTEXTS = [
+    ("array_elt", "xs = array({c} for _ in range(3))"),
+    ("list_elt", "xs = [{c} for _ in range(3)]"),
+    ("list_guard", "xs = [i for i in range(4) if {c} > 0]"),
+    ("list_elt_with_guard", "xs = [{c} for i in range(5) if i > 1]"),
+    ("list_nested_inner", "xs = [{c} + j for i in range(2) for j in range(3)]"),
+    ("list_nested_guard_outer", "xs = [j for i in range(2) if {c} > i for j in range(3)]"),
+]
+
+
+def comprehension_cases(r, n):
+    combos = [(a, b) for a in CP_CONTEXTS for b in CP_CALLS]
+    r.shuffle(combos)
+    # always keep the array form of every call shape, then fill up
+    first = [(CP_CONTEXTS[0], b) for b in CP_CALLS]
+    chosen = first + [c for c in combos if c not in first][:max(0, n - len(first))]
+    out = []
+    for k, ((cname, ctx), (params, call, lent)) in enumerate(chosen):
+        src = CP_HEADER + f"@guppy\ndef main({params}) -> None:\n    {ctx.format(c=call)}\n"
+        out.append({"id": f"comp-{cname}-{k}", "src": src, "mode": "deps", "entry": ["main"], "funcs": ["main"],
+                    "context": cname, "call": call,
+                    "lent": [{"param": p, "path": path, "leaves": CP_LEAVES[ty], "callee": callee, "port": port}
+                             for p, path, ty, callee, port in lent]})
+    return out
